@@ -41,7 +41,7 @@ MANIFEST_ENTRY = {
             "that is symmetric and transitive (NaN keys included) and any hash respecting it, iteration visits each binding "
             "once, removal while iterating is safe, rehash keeps the bindings in order, and - stronger - the hashmap IS a "
             "hash-free flat map: results, iteration order, capacity and bucket count are the same for every hash function "
-            "respecting ==; the only other outcome (usize wrap of the bucket count) is excluded below 2^60 bindings; the derived "
+            "respecting ==; the only other outcome (usize wrap of the bucket count) is excluded below 2^50 bindings; the derived "
             "hashes of integers, booleans, floats (+-0, NaN), record{integer,number}, arrays, spans, pointers and unions respect "
             "==, and the byte loop is total; the stringbuilder refines the byte string incl. NUL slot, commit/rollback guards "
             "(after repair 8abaeda) and refused allocations; a refused allocation in vector/sequence/hashmap/list aborts "
@@ -53,7 +53,7 @@ MANIFEST_ENTRY = {
             "float32 and user-defined record keys",
     "note": "trusted: Coq 8.16.1 kernel; the hand-written model coq/C12/Model.v (tie = scraped MAX_LOAD_FACTOR/GROW_RATE/INIT_CAPACITY, "
             "initial capacities, growth multipliers, hash seed + correspondence, which is testing); extraction with ExtrOcamlBasic; "
-            "OCaml/Nelua/Python glue (driver.ml, driver.nelua, checks/C12.py); sizes are exact naturals (no container near 2^60 "
+            "OCaml/Nelua/Python glue (driver.ml, driver.nelua, checks/C12.py); sizes are exact naturals (no container near 2^50 "
             "elements); allocation either succeeds or panics; the Nelua compiler that compiles the driver; no cross-property file dependencies",
     "technique": "machine-checked proof in Coq over an executable model + regenerated parameters + extracted-model/implementation correspondence",
 }
@@ -69,7 +69,7 @@ THEOREM_CLASSES = {
     "C12_sequence_remove_guard": "corollary",                # the check added by repair 3181cf6, instance of the step theorem
     "C12_hashmap_step_refines_map": "main",
     "C12_hashmap_history_refines_map": "corollary",
-    "C12_hashmap_no_overflow_below_2p60": "main",            # bounds the Overflow disjunct of the two above (uses facts about the scraped rates)
+    "C12_hashmap_no_overflow_below_2p50": "main",            # bounds the Overflow disjunct of the two above (uses facts about the scraped rates)
     "C12_hashmap_empty_related": "corollary",
     "C12_hashmap_iteration_each_binding_once": "main",
     "C12_hashmap_next_follows_iteration_order": "main",
@@ -1022,8 +1022,11 @@ def correspond(ctx):
     for c in load_corpus():
         if c["trap"] is None:
             hist.append({"kind": c["kind"], "typ": c["typ"], "n": c["n"], "ops": c["ops"], "dump": 0, "stream": "corpus"})
-    nsmall = ctx.scale(1500, 40000)
-    nbig = ctx.scale(24, 600)
+    import time as _time
+    _t0 = _time.time(); phase_s = {}
+    # thorough sizes are set so that the whole tier (Coq build, coqchk, both drivers, sanitizer replay) stays within ~20 minutes
+    nsmall = ctx.scale(1500, 22000)
+    nbig = ctx.scale(24, 330)
     kinds_w = [1, 1, 1, 2, 2, 2, 3, 3, 4, 4, 4, 4, 4, 5, 6, 6]
     for i in range(nsmall):
         kind = rng.choice(kinds_w)
@@ -1040,7 +1043,7 @@ def correspond(ctx):
         ops = gen_sb_history(rng, nsteps, 1100) if kind == 6 else gen_history(rng, kind, typ, nsteps, maxsize, big=True)
         hist.append({"kind": kind, "typ": typ, "n": 0, "ops": ops, "dump": 1, "stream": "long"})
     # stringbuilder over an allocator that refuses requests of `limit` bytes or more
-    for i in range(ctx.scale(80, 3000)):
+    for i in range(ctx.scale(80, 1200)):
         limit = rng.choice([17, 24, 33, 40, 65, 70, 100, 129, 200, 300])
         ops = gen_sb_history(rng, rng.choice([40, 80, 150]), rng.choice([40, 70, 140, 300]), limit=limit)
         hist.append({"kind": 9, "typ": 0, "n": limit, "ops": ops, "dump": 0, "stream": "allocation-failure"})
@@ -1057,11 +1060,18 @@ def correspond(ctx):
             else: ops.append((4, a, b, rng.randrange(0, b - a + 1)))                         # sub-span of a sub-span
         hist.append({"kind": 7, "typ": 0, "n": n, "ops": ops, "dump": 0, "stream": "span"})
     groups = []
-    owners = []     # for every line the implementation prints: (history index, step index or -1 for the header)
     for hi_, h in enumerate(hist):
         groups.append(fmt_ops(h["kind"], h["typ"], h["ops"], h["n"], h["dump"]))
-        owners += [(hi_, -1)] + [(hi_, k) for k in range(len(h["ops"]))]
-    hash_cases = gen_hash_cases(rng, ctx.scale(300, 20000))
+
+    def owner_of(line_no):
+        """(history index, step index or -1 for the header) of the line_no-th line the implementation prints"""
+        acc = 0
+        for hi2, h2 in enumerate(hist):
+            if line_no < acc + 1 + len(h2["ops"]):
+                return hi2, line_no - acc - 1
+            acc += 1 + len(h2["ops"])
+        return max(len(hist) - 1, 0), -1
+    hash_cases = gen_hash_cases(rng, ctx.scale(300, 10000))
     groups.append(fmt_ops(8, 0, hash_cases))
     batch_chunks = chunked(groups)
     rc1, il, ierr, rc2, ml, merr = run_batch(drv_impl, drv_model, batch_chunks, timeout=ctx.scale(150, 1500))
@@ -1170,6 +1180,7 @@ def correspond(ctx):
                         ctx.violation("spec-mismatch:%s.%s" % (KINDS[kind], OPN[kind].get(op, op)), "correspondence",
                                       "the extracted abstract specification (the theorems' right-hand side) disagrees with the Python oracle: %s" % smsg,
                                       detail={"history": describe(kind, typ, ops, i), "spec": mspec[:500]}, failing_input=False)
+    phase_s['valid_histories'] = round(_time.time() - _t0, 1); _t0 = _time.time()
     # ---------------- hash stream: correspondence + coherence oracle
     pos += 1
     hash_vals = {}
@@ -1211,12 +1222,53 @@ def correspond(ctx):
                 ctx.violation("hash:record %d %d" % (a, b), "oracle", "records {%d, bits %x} and {%d, bits %x} are == but hash to %s and %s" % (a, b % 2**64, a, other[2] % 2**64, hv, hash_vals[other]))
     if impl_dead and n_oracle == 0:
         ctx.violation("impl-driver-run", "harness", "implementation driver rc=%s, %d of %d lines: %s" % (rc1, len(il), nexp, ierr[-400:]), failing_input=False)
+    phase_s['hash_stream'] = round(_time.time() - _t0, 1); _t0 = _time.time()
+    del ml      # the model's lines are not needed any more
+    # ---------------- the same histories under AddressSanitizer + UBSan (a test, not an obligation)
+    asan_info = {"ran": False}
+    if not pos_dead and n_oracle == 0:
+        drv_asan = drv_impl + "-asan"
+        if not os.path.exists(drv_asan):
+            cdir = os.path.join(work, "nelua-cache-asan-%d" % os.getpid())
+            rc, o_, e_ = vlib.nelua_build(os.path.join(vlib.VERIF, "harness", ID, "driver.nelua"), drv_asan, cache_dir=cdir,
+                                          extra=["-P", "nogc", "--cflags=-fsanitize=address,undefined -fno-omit-frame-pointer -g"])
+            import shutil
+            shutil.rmtree(cdir, ignore_errors=True)
+            if rc != 0 or not os.path.exists(drv_asan):
+                ctx.note("ASan build of the driver failed: %s" % (o_ + e_)[-400:])
+                drv_asan = None
+        if drv_asan:
+            rc3, al_, aerr = _run_chunks(drv_asan, batch_chunks, ctx.scale(600, 3000),
+                                         env={"ASAN_OPTIONS": "detect_leaks=0", "UBSAN_OPTIONS": "halt_on_error=1:print_stacktrace=0"})
+            report = [x for x in aerr.split("\n") if "Sanitizer" in x or "runtime error" in x]
+            asan_info = {"ran": True, "exit_status": rc3, "lines": len(al_), "sanitizer_reports": report[:5],
+                         "identical_to_plain_build": al_ == il[:len(al_)] and len(al_) == len(il)}
+            if rc3 != 0 or report:
+                hi_, st = owner_of(len(al_))
+                h = hist[hi_]
+                st = max(st, 0)
+                n_oracle += 1
+                ctx.violation("sanitizer:" + history_key(h["kind"], h["typ"], h["ops"], st, h["n"]), "oracle",
+                              "%s step %d: the sanitizer build stops here (exit status %s): %s" % (KINDS[h["kind"]], st, rc3, (report or [aerr.strip()[-200:]])[0][:300]),
+                              detail={"history": describe(h["kind"], h["typ"], h["ops"], st), "stderr": aerr[-1500:],
+                                      "replay": "\n".join(fmt_ops(h["kind"], h["typ"], h["ops"][:st + 1], h["n"], h["dump"]))})
+            elif not asan_info["identical_to_plain_build"]:
+                ctx.violation("sanitizer-output-differs", "harness", "the sanitizer build prints different results than the plain build (%d vs %d lines)" % (len(al_), len(il)), failing_input=False)
+    # the streams below start one process per history; vlib forks the checker for every one of them, which costs time
+    # proportional to the checker's memory: drop the big batch first
+    n_hist = len(hist)
+    samples_h = [describe(h["kind"], h["typ"], h["ops"], 5) for h in hist[:2]]
+    del il, groups, batch_chunks, hist, hash_cases
+    al_ = None
+    import gc
+    gc.collect()
+    phase_s['sanitizer_replay'] = round(_time.time() - _t0, 1); _t0 = _time.time()
     # ---------------- precondition-violating stream (one process per history)
     viol = []
     for cc in load_corpus():
         if cc["trap"] is not None:
             viol.append((cc["kind"], cc["typ"], cc["n"], cc["ops"], cc["trap"], "corpus"))
-    for i in range(ctx.scale(70, 1500)):
+    for i in range(ctx.scale(70, 800)):
         kind = rng.choice([1, 1, 2, 2, 2, 3, 4, 5, 6, 6, 7])
         typ = 0 if kind in (5, 6, 7) else rng.randrange(0, 4)
         n, ops, trap = gen_violation(rng, kind, typ)
@@ -1265,42 +1317,12 @@ def correspond(ctx):
                 n_mismatch += 1
                 ctx.violation("model-mismatch:violating-prefix.%s" % KINDS[kind], "correspondence", "prefix of a violating history differs between model and implementation",
                               detail={"history": describe(kind, typ, ops, len(ops) - 1), "model": ml2[:len(ops)], "implementation": il2[:len(ops)]}, failing_input=False)
-    # ---------------- the same histories under AddressSanitizer + UBSan (a test, not an obligation)
-    asan_info = {"ran": False}
-    if not pos_dead and n_oracle == 0:
-        drv_asan = drv_impl + "-asan"
-        if not os.path.exists(drv_asan):
-            cdir = os.path.join(work, "nelua-cache-asan-%d" % os.getpid())
-            rc, o_, e_ = vlib.nelua_build(os.path.join(vlib.VERIF, "harness", ID, "driver.nelua"), drv_asan, cache_dir=cdir,
-                                          extra=["-P", "nogc", "--cflags=-fsanitize=address,undefined -fno-omit-frame-pointer -g"])
-            import shutil
-            shutil.rmtree(cdir, ignore_errors=True)
-            if rc != 0 or not os.path.exists(drv_asan):
-                ctx.note("ASan build of the driver failed: %s" % (o_ + e_)[-400:])
-                drv_asan = None
-        if drv_asan:
-            rc3, al_, aerr = _run_chunks(drv_asan, batch_chunks, ctx.scale(600, 3000),
-                                         env={"ASAN_OPTIONS": "detect_leaks=0", "UBSAN_OPTIONS": "halt_on_error=1:print_stacktrace=0"})
-            report = [x for x in aerr.split("\n") if "Sanitizer" in x or "runtime error" in x]
-            asan_info = {"ran": True, "exit_status": rc3, "lines": len(al_), "sanitizer_reports": report[:5],
-                         "identical_to_plain_build": al_ == il[:len(al_)] and len(al_) == len(il)}
-            if rc3 != 0 or report:
-                k = min(len(al_), len(owners) - 1)
-                hi_, st = owners[k] if owners else (0, -1)
-                h = hist[hi_]
-                st = max(st, 0)
-                n_oracle += 1
-                ctx.violation("sanitizer:" + history_key(h["kind"], h["typ"], h["ops"], st, h["n"]), "oracle",
-                              "%s step %d: the sanitizer build stops here (exit status %s): %s" % (KINDS[h["kind"]], st, rc3, (report or [aerr.strip()[-200:]])[0][:300]),
-                              detail={"history": describe(h["kind"], h["typ"], h["ops"], st), "stderr": aerr[-1500:],
-                                      "replay": "\n".join(fmt_ops(h["kind"], h["typ"], h["ops"][:st + 1], h["n"], h["dump"]))})
-            elif not asan_info["identical_to_plain_build"]:
-                ctx.violation("sanitizer-output-differs", "harness", "the sanitizer build prints different results than the plain build (%d vs %d lines)" % (len(al_), len(il)), failing_input=False)
+    phase_s['violating_stream'] = round(_time.time() - _t0, 1); _t0 = _time.time()
     # ---------------- vector / sequence / hashmap / list over an allocator refusing requests of `limit` bytes or more:
     # the operation for which the model predicts a refused request (TRAP OOM) must stop with 'out of memory',
     # everything before it behaves as usual (one process per history)
     n_oom = 0
-    for i in range(ctx.scale(80, 1500)):
+    for i in range(ctx.scale(80, 700)):
         kind = rng.choice([10, 11, 12, 12, 13])
         base = BASEKIND[kind]
         limit = rng.choice({10: [16, 24, 64, 100, 128, 520, 1024], 11: [20, 30, 40, 64, 100, 130, 520, 1024],
@@ -1356,9 +1378,9 @@ def correspond(ctx):
         "evaluations": evaluations,
         "distinct_nontrivial": len(nontrivial),
         "rule": "histories = corpus + threshold-biased random histories (50..200 steps, sizes hovering at capacity-1/capacity/capacity+1 and the load-factor edge, rehash(0) after erasures, removal during iteration, negative-zero key aliases) + long histories (1000..5000 steps, checksummed dumps) + span accesses + hash cases + precondition-violating histories (one process each); non-trivial = distinct (container, type, op, args, abstract length) with a non-empty container",
-        "samples": [describe(h["kind"], h["typ"], h["ops"], 5) for h in hist[:2]] + [describe(v[0], v[1], v[3], len(v[3]) - 1)[:300] for v in viol[:2]],
+        "samples": samples_h + [describe(v[0], v[1], v[3], len(v[3]) - 1)[:300] for v in viol[:2]],
         "distribution": stats,
-        "histories": len(hist),
+        "histories": n_hist,
         "violating_histories": n_viol,
         "out_of_memory_histories": n_oom,
         "sanitizer_run": asan_info,
@@ -1369,6 +1391,7 @@ def correspond(ctx):
         "spec_vs_oracle_mismatches": n_spec,
         "traces_validated_against_impl": evaluations,
         "unproved": UNPROVED,
+        "phase_s": dict(phase_s, allocation_failure_stream=round(_time.time() - _t0, 1)),
     }
 
 
@@ -1376,7 +1399,7 @@ UNPROVED = [
     "model = code is not a theorem: lib/{vector,sequence,list,hashmap,span,stringbuilder,hash}.nelua are mirrored by hand in coq/C12/Model.v (one Gallina function per source function); the tie is the scraped constants (Gen.v) plus the step-by-step differential runs of the compiled library against the extracted model and the Python oracle, also under ASan/UBSan",
     "lib/iterators.nelua (ipairs/mipairs/pairs/mpairs/next/mnext over contiguous containers, list.__next/__mnext, select) is not modelled: its index stepping is only exercised by the driver (ipairs over vector and span, mipairs over a sub-span, pairs over sequence, list and hashmap, mpairs and next over hashmap); mnext and select are not exercised at all",
     "hashmap: the model runs with a hash on value tokens while the implementation hashes the real values; this is covered by C12_hashmap_is_flat_map / C12_hashmap_hash_independent_exact (every hash that respects == gives identical results, order, capacity and bucket count) TOGETHER WITH the coherence of the real hashes, which is proved only for integer, boolean, float64 (+-0, NaN), record{integer,number}, arrays/spans/pointers/unions as functions of the compared bytes; strings are compared with == on bytes and hashed by the byte loop (coherent by congruence, not stated); float32 keys and other record shapes are not covered",
-    "hashmap: the distinguished Overflow outcome (roundpow2 wrapped in usize; the implementation would continue with a zero-sized table) is excluded by theorem only below 2^60 bindings/requested counts (C12_hashmap_no_overflow_below_2p60); at or above that the model says Overflow and nothing is claimed about the code",
+    "hashmap: the distinguished Overflow outcome (roundpow2 wrapped in usize; the implementation would continue with a zero-sized table) is excluded by theorem only below 2^50 bindings/requested counts (C12_hashmap_no_overflow_below_2p50); at or above that the model says Overflow and nothing is claimed about the code",
     "hashmap next(m,k)/__next is not an operation of the step relation (hop): C12_hashmap_next_follows_iteration_order covers it separately and the flat-map theorem does not mention it",
     "allocation failure: theorems are about the model with an allocation oracle (refused request = panic before any change); that the library's x-allocators panic is checked by the driver with a refusing allocator, not proved; the gc/general allocators themselves are C11's subject; counts whose byte size overflows (Allocator span operations, /repo 942989e) are outside the model (sizes are exact naturals)",
     "stringbuilder: histories are covered under the static protocol condition sb_op_ok (the client writes at most the n bytes it asked prepare for), a sufficient condition for the state-dependent one of the step theorem (at most the span prepare returned); write of integer/boolean arguments is modelled as write of the rendered bytes (the rendering, strconv.int2str, is C14's theorem in another sub-project: here driver and oracle render and the correspondence compares); float arguments (num2str), writef/formatarg (string.format) and __tostring are not modelled",
